@@ -306,6 +306,12 @@ def py_index(rsel, csel, spelling="plain"):
             return np.int32(v)
         if spelling == "numpy32" and sel[0] == "list":
             return np.array(v, dtype=np.int32)
+        if spelling == "numpy8":                   # the narrowest numpy integer type that holds the index
+            nar = lambda x: np.int8(x) if -128 <= x <= 127 else np.int16(x)
+            if sel[0] == "int":
+                return np.uint8(v) if (0 <= v <= 255 and v % 2) else nar(v)
+            if sel[0] == "list":
+                return np.array(v, dtype=np.int8 if all(-128 <= x <= 127 for x in v) else np.int16)
         if spelling == "pylist" and sel[0] == "mask":
             return [bool(x) for x in v]            # a boolean mask written as a plain list of bools
         if spelling == "pylist" and sel[0] == "int":
